@@ -34,11 +34,12 @@ Fixpoint merge_into (c : ckdoc) (rest : list ckdoc) : option ckdoc :=
       end
   end.
 
-(* slices.SortStableFunc by start key: stable insertion sort *)
+(* slices.SortStableFunc by start key: stable insertion sort (fold_right inserts earlier elements later, so an
+   element goes BEFORE the elements with an equal start key that are already there) *)
 Fixpoint ins_table (t : table) (l : list table) : list table :=
   match l with
   | [] => [t]
-  | x :: l' => if bltb (t_start t) (t_start x) then t :: l else x :: ins_table t l'
+  | x :: l' => if bleb (t_start t) (t_start x) then t :: l else x :: ins_table t l'
   end.
 Definition sort_level (l : list table) : list table := fold_right ins_table [] l.
 
